@@ -52,7 +52,8 @@ def _task(t):
     witness = {}
     for name, (case_, m, ob) in out["models"].items():
         wb = getattr(c, "witness", None)
-        if wb is not None:
+        from . import core as _core
+        if wb is not None and not isinstance(m, _core.TextModel):
             try:
                 w = wb(case_, m, ob)
                 if w:
